@@ -47,6 +47,7 @@ def run(ctx: Ctx) -> None:
     rule_lc_toggle(ctx)
     rule_find_lc_binding(ctx)
     rule_lc_position(ctx)
+    rule_lc_equivalent_direction(ctx)
     from ..rules import tableau as _tb
     _tb.rule_sign_carry(ctx, [SRC, LCC])
     loops.rule_trial_fresh(ctx, LCE)
@@ -274,6 +275,51 @@ def rule_lc_position(ctx: Ctx) -> None:
                      construct="local_comp_graph: label used as position in an insertion-ordered matrix")
 
 
+def rule_lc_equivalent_direction(ctx: Ctx) -> None:
+    """lc.direction: Graph.lc_equivalent(self, other) returns the Cliffords that take *this* graph to the other one, so it hands
+    is_lc_equivalent the adjacency matrix derived from `self` first and the one derived from the other graph second (the yes/no answer
+    is symmetric, the returned solution is not)."""
+    repo = ctx.repo
+    m = repo.module(GRAPH)
+    fn = repo.anchor(GRAPH, "Graph.lc_equivalent")
+    ctx.touch(m, fn)
+    other = func_params(fn)[1]
+    env = {}
+    for a in ast.walk(fn):
+        if isinstance(a, ast.Assign) and len(a.targets) == 1 and isinstance(a.targets[0], ast.Name):
+            env.setdefault(a.targets[0].id, a.value)
+
+    def owner(e, depth=0):
+        names = {x.id for x in ast.walk(e) if isinstance(x, ast.Name)}
+        if "self" in names and other not in names:
+            return "self"
+        if other in names and "self" not in names:
+            return "other"
+        if isinstance(e, ast.Name) and e.id in env and depth < 4:
+            return owner(env[e.id], depth + 1)
+        for nm in names:
+            if nm in env and depth < 4:
+                o = owner(env[nm], depth + 1)
+                if o:
+                    return o
+        return None
+    cs = [c for c in calls_in(fn) if call_name(c) == "is_lc_equivalent" and len(c.args) >= 2]
+    if not cs:
+        raise AnalysisError("Graph.lc_equivalent: is_lc_equivalent call not found")
+    for c in cs:
+        o1, o2 = owner(c.args[0]), owner(c.args[1])
+        if (o1, o2) == ("self", "other"):
+            ctx.ok("lc.direction", m, c, what="solution converts this graph into the other one")
+        elif (o1, o2) == ("other", "self"):
+            ctx.fail("lc.direction", m, c,
+                     f"Graph.lc_equivalent calls `{short(c)}` with the other graph's matrix first: the yes/no answer is the same, but the returned "
+                     f"Clifford blocks convert the other graph into this one, so the gates / local-complementation sequence derived from them do "
+                     f"not take this graph to the other (3-vertex star vs triangle)", func="Graph.lc_equivalent",
+                     construct="Graph.lc_equivalent: is_lc_equivalent arguments swapped")
+        else:
+            raise AnalysisError(f"Graph.lc_equivalent: owners of the is_lc_equivalent arguments not resolved ({o1}, {o2})")
+
+
 def rule_lc_toggle(ctx: Ctx) -> None:
     repo = ctx.repo
     m = repo.module(GRAPH)
@@ -323,6 +369,7 @@ def rule_lc_toggle(ctx: Ctx) -> None:
 
 
 KNOCKOUTS = [
+    Knockout("lc-equivalent-swapped", GRAPH, sub_once("        return is_lc_equivalent(g1, g2, mode=mode)", "        return is_lc_equivalent(g2, g1, mode=mode)"), "lc.direction", "arguments swapped"),
     Knockout("lc-matrix-insertion-order", LCE, sub_once("        input_graph, nodelist=sorted(input_graph.nodes())\n", "        input_graph\n"), "lc.position", "label used as position", on_fixed_only=True),
     Knockout("find-lc-second-graph", LCE, sub_once("        op_list = lc_graph_operations(adj_matrix1, solution)", "        op_list = lc_graph_operations(adj_matrix2, solution)"), "lc.sequence-source", "second graph", on_fixed_only=True),
     Knockout("clifford-input-signs-dropped", SRC, sub_once("        tab = state.to_stabilizer()\n", "        tab = StabilizerTableau(state.stabilizer)\n"), "sign.carry", "without signs"),
